@@ -121,7 +121,22 @@ def run_case(case):
         else:
             keynames_arg = keynames
         form = case.get("ctor_form", 0)  # the same construction spelt with keywords, positionally, or mixed
-        if form == 1:
+        if form == 3:
+            # only what differs from the documented defaults is passed (keynames 'curtsies', paste_threshold = longest table
+            # sequence + 1, sigint_event False, disable_terminal_start_stop False)
+            kw = {}
+            if keynames != "curtsies":
+                kw["keynames"] = keynames_arg
+            if threshold != km.tables().maxlen + 1:
+                kw["paste_threshold"] = threshold
+            if sigint_event:
+                kw["sigint_event"] = True
+            if dtss:
+                kw["disable_terminal_start_stop"] = True
+            inp = ci.Input(stream, **kw)
+            if len(kw) < 4:
+                res.label("constructor_defaults_relied_on")
+        elif form == 1:
             inp = ci.Input(stream, keynames_arg, threshold, sigint_event, dtss)
         elif form == 2:
             inp = ci.Input(stream, keynames_arg, threshold, sigint_event=sigint_event, disable_terminal_start_stop=dtss)
@@ -723,7 +738,7 @@ def strategy():
             "bystander": st.sampled_from([False, False, True]),
             "overshoot": st.sampled_from([0.0, 0.0005, 0.0005]),
             "pre_enter_requests": st.lists(st.sampled_from([0, 0, 0.01]), max_size=2),
-            "ctor_form": st.sampled_from([0, 0, 1, 2]),
+            "ctor_form": st.sampled_from([0, 0, 1, 2, 3, 3]),
             "keynames_enum": st.booleans(),
             "disable_terminal_start_stop": st.booleans(),
             "typeahead": st.one_of(st.none(), st.none(), payload_strategy(6).map(lambda t: {"data": t[0].hex(), "tokens": t[1]})),
@@ -759,7 +774,7 @@ def history_cases():
     toks = [len(k) for k in keys]
     for keynames in ("bytes", "curtsies", "curses"):
         for thr in (None, 8):
-            base = {"paste_threshold": thr, "sigint_event": False, "overshoot": 0.0, "keynames": keynames}
+            base = {"paste_threshold": thr, "sigint_event": False, "overshoot": 0.0, "keynames": keynames, "ctor_form": 3 if thr == 8 else 0}
             # read two keys, fetch one, hand back further bytes (read by someone else): they come after the held one
             for k in range(1, len(keys) - 1):
                 first, rest = b"".join(keys[:k + 1]), keys[k + 1:]
